@@ -111,6 +111,13 @@ class DictLikeModel(BaseModel):
     def to_dict(self, *args: Any, **kwargs: Any) -> dict[str, Any]:
         return self._data
 
+    def __copy__(self) -> Any:
+        # a shallow copy (model_copy()) gets its own dynamic-field dict; sharing it
+        # would let edits to the copy show through in the original
+        copied = super().__copy__()
+        copied._data = dict(self._data)
+        return copied
+
     def __bool__(self) -> bool:
         """Make test `if event:` pass on Event instances."""
         return True
